@@ -149,6 +149,23 @@ def run_codecs(ev, state, coords, job):
           bad(f'unpack_to_pytree(pack_pytree(t, {axis})) != t: {msg}')
       except Exception as e:  # pylint: disable=broad-except
         bad(f'pack/unpack raised {type(e).__name__}: {str(e)[:160]}')
+    # 3b. pack / unpack along other axes (sizes differ along the packed axis only)
+    a0 = arrs[0]
+    n_last = a0.shape[-1]
+    if n_last >= 3:
+      cut = 1 + rng.randrange(n_last - 1)
+      tl = {'a': a0[..., :cut], 'b': {'c': a0[..., cut:], 'd': a0[..., :1]}}
+      t0 = {'a': np.stack([a0, a0 * 2]), 'b': {'c': a0[None] + 1.0}}
+      for tree_x, axis in ((tl, -1), (tl, a0.ndim - 1), (t0, 0), (t0, -a0.ndim - 1)):
+        try:
+          packed = pytree_utils.pack_pytree(tree_x, axis)
+          back = pytree_utils.unpack_to_pytree(
+              packed, pytree_utils.shape_structure(tree_x), axis)
+          ok, msg = tree_bits_equal(tree_x, back)
+          if not ok:
+            bad(f'unpack_to_pytree(pack_pytree(t, axis={axis})) != t: {msg}')
+        except Exception as e:  # pylint: disable=broad-except
+          bad(f'pack/unpack along axis {axis} raised {type(e).__name__}: {str(e)[:160]}')
     # 4. stack / unstack
     same = {'u': arrs[0], 'v': {'w': arrs[0] * 2, 'z': arrs[0] + 1}}
     for axis in (0, 1, -1):
